@@ -22,6 +22,7 @@ fn main() {
     }
     match args[0].as_str() {
         "C13" => c13::main(&parse_opts(&args[1..])),
+        "C12" => c12::main(&parse_opts(&args[1..])),
         "replay" => {
             let path = args.get(1).unwrap_or_else(|| usage());
             let body: serde_json::Value = serde_json::from_str(
@@ -31,6 +32,25 @@ fn main() {
             match (body["engine"].as_str(), body["property"].as_str()) {
                 (Some("bersim"), Some("C13")) => {
                     campaign::replay_file(&body, path, &|c, o| bersim::oracle_c13(c, o))
+                }
+                (Some("bersim"), Some("C12")) => {
+                    campaign::replay_file(&body, path, &|c, o| c12::oracle_c12(c, o))
+                }
+                (Some("bersim-calibration"), Some("C12")) => {
+                    let cfg = bersim::BerCfg::from_json(&body["config"]).unwrap_or_else(|e| harness_error(&e));
+                    let obs = bersim::run_one(&cfg);
+                    let (v, _) = c12::check_noise(&cfg, &obs, &c12::describe_cal(&cfg));
+                    match v.first() {
+                        Some(x) => {
+                            println!("VIOLATION property=C12 replay={}", path);
+                            println!("  kind={} detail={}", x.kind, x.detail);
+                            std::process::exit(1)
+                        }
+                        None => {
+                            println!("NOT-REPRODUCED property=C12 replay={}", path);
+                            std::process::exit(0)
+                        }
+                    }
                 }
                 other => harness_error(&format!("unknown replay kind {:?}", other)),
             }
